@@ -256,7 +256,10 @@ def impl_apply(s, op, h=None):
     elif kind == "create_feature":
         tag = s.resolve(path, h)
         blk = s.resolve(path[:2], h)
-        tag.create_feature(blk.data_arrays[op[2]], LT[op[3]])
+        if isinstance(op[2], list):                  # an array addressed by path (possibly of another block)
+            tag.create_feature(s.resolve(op[2], None), LT[op[3]])
+        else:
+            tag.create_feature(blk.data_arrays[op[2]], LT[op[3]])
     elif kind == "append_dim":
         da = s.resolve(path, h)
         if op[2] == "set":
@@ -392,7 +395,12 @@ def model_apply(m, op):
     elif kind == "create_feature":
         tag = m.resolve(path)
         blk = m.resolve(path[:2])
-        tag["features"].append(t_feature(m, mkref(pick(blk["data_arrays"], op[2])), op[3]))
+        if isinstance(op[2], list):
+            if op[2][:2] != path[:2]:
+                raise Refused("RuntimeError", "ValueError", "KeyError")    # data of a feature lives in the tag's block
+            tag["features"].append(t_feature(m, mkref(m.resolve(op[2])), op[3]))
+        else:
+            tag["features"].append(t_feature(m, mkref(pick(blk["data_arrays"], op[2])), op[3]))
     elif kind == "delete_dims":
         m.resolve(path)["dimensions"] = []
     elif kind == "append_dim":
@@ -442,6 +450,8 @@ def model_apply(m, op):
         obj = m.resolve(path)
         tgt = m.resolve(op[3])
         lst = obj[op[2]]
+        if path and path[0] == "blocks" and list(op[3][:2]) != list(path[:2]):
+            raise Refused("RuntimeError", "ValueError", "KeyError")    # member lists take entities of the own block only
         r = mkref(tgt)
         # linking the same entity again re-creates the link (moves to the end in creation order)
         lst[:] = [x for x in lst if x["$ref"] != r["$ref"]]
